@@ -37,6 +37,7 @@ def extras():
                                  st.tuples(st.just('image_solve'), sel, f(0.0, 1.0)),
                                  st.tuples(st.just('update'), sel, f(0.0, 1.0)),
                                  st.tuples(st.just('set_conic'), sel, f(-2.0, 1.0)),
+                                 st.tuples(st.just('set_index'), sel, f(1.3, 1.9)),
                                  st.tuples(st.just('variable_thickness'), sel, f(0.5, 30.0))), max_size=5),
         tele=st.booleans()))
 
@@ -177,6 +178,10 @@ class C19(Check):
                     o.set_conic(v, k)
             elif name == 'scale_system':
                 o.scale_system(v)
+                edited = True
+            elif name == 'set_index':
+                # the medium behind any surface, the object surface (object-space medium) included
+                o.set_index(round(v, 6), a % (K + 1))
                 edited = True
             elif name == 'image_solve':
                 ya, ua = o.paraxial.marginal_ray()
